@@ -48,8 +48,14 @@ class Scripted(System):
 
 
 class SchedWorld:
-    def __init__(self, ids, seed=None):
-        self.model = Model(seed=seed)
+    def __init__(self, ids, seed=None, logger=None):
+        if logger == "quiet":
+            import logging
+            lg = logging.getLogger("verif.quiet")       # a user-supplied logger that is not enabled for INFO
+            lg.setLevel(logging.WARNING)
+            self.model = Model(seed=seed, logger=lg)
+        else:
+            self.model = Model(seed=seed)
         self.ids = list(ids)
         self.objects = {}      # (id, serial) -> Scripted
         self.events = []
@@ -154,9 +160,12 @@ ALWAYS = [0, FOREVER, 1]
 
 
 def run_program(prog):
-    w = SchedWorld(program_ids(prog))
+    logger = prog[0][1] if prog and prog[0][0] == "logger" else None
+    w = SchedWorld(program_ids(prog), logger=logger)
     for op in prog:
         k = op[0]
+        if k == "logger":
+            continue
         if k == "add":
             w.add(tuple(op[1]), op[2], tuple(op[3]), op[4])
         elif k == "remove":
@@ -228,7 +237,7 @@ def random_program(rng, *, n_ids=5, prios=(-2, -1, 0, 1, 2), length=30, p_mut=0.
                    windows=False, wide=False, multi=True):
     ids = [chr(ord("a") + k) for k in range(n_ids)]
     serials = {i: 1 for i in ids}
-    prog = []
+    prog = [["logger", "quiet"]] if rng.random() < 0.3 else []
 
     def serial_of(i):
         # mostly re-use object 1, sometimes a fresh object with the same id
